@@ -21,7 +21,6 @@ import (
 	"fmt"
 	"io"
 	"runtime"
-	"sync"
 	"sync/atomic"
 	"time"
 
@@ -197,7 +196,7 @@ type encodingTask struct {
 	blockEntropyType   uint32
 	currentBlockID     int32
 	processedBlockID   *int32
-	wg                 *sync.WaitGroup
+	wg                 *simhook.WaitGroup
 	listeners          []kanzi.Listener
 	obs                kanzi.OutputBitStream
 	ctx                map[string]any
@@ -703,7 +702,7 @@ func (this *Writer) processBlock() error {
 	}
 
 	tasks := 0
-	wg := sync.WaitGroup{}
+	wg := simhook.WaitGroup{}
 	results := make([]encodingTaskResult, nbTasks)
 	firstID := this.blockID
 
@@ -752,7 +751,6 @@ func (this *Writer) processBlock() error {
 	}
 
 	// Wait for completion of all tasks
-	simhook.Join()
 	wg.Wait()
 
 	for _, r := range results {
@@ -812,8 +810,8 @@ func (this *encodingTask) encode(res *encodingTaskResult) {
 			atomic.CompareAndSwapInt32(this.processedBlockID, this.currentBlockID-1, this.currentBlockID)
 		}
 
-		simhook.Exit(res)
 		this.wg.Done()
+		simhook.Exit(res)
 	}()
 
 	hashType := kanzi.EVT_HASH_NONE
@@ -1130,7 +1128,7 @@ type decodingTask struct {
 	blockEntropyType   uint32
 	currentBlockID     int32
 	processedBlockID   *int32
-	wg                 *sync.WaitGroup
+	wg                 *simhook.WaitGroup
 	listeners          []kanzi.Listener
 	ibs                kanzi.InputBitStream
 	ctx                map[string]any
@@ -1758,7 +1756,7 @@ func (this *Reader) processBlock() (int64, error) {
 
 	for {
 		results := make([]decodingTaskResult, nbTasks)
-		wg := sync.WaitGroup{}
+		wg := simhook.WaitGroup{}
 		firstID := this.blockID
 
 		// Invoke as many go routines as required
@@ -1798,7 +1796,6 @@ func (this *Reader) processBlock() (int64, error) {
 		}
 
 		// Wait for completion of all tasks
-		simhook.Join()
 		wg.Wait()
 
 		// Process results
@@ -1912,8 +1909,8 @@ func (this *decodingTask) decode(res *decodingTaskResult) {
 			atomic.CompareAndSwapInt32(this.processedBlockID, this.currentBlockID-1, this.currentBlockID)
 		}
 
-		simhook.Exit(res)
 		this.wg.Done()
+		simhook.Exit(res)
 	}()
 
 	// Lock free synchronization
